@@ -148,6 +148,15 @@ class GF2Eval:
             if e.id in env:
                 return env[e.id]
             raise AnalysisError(f"gf2: unknown name {e.id}")
+        if isinstance(e, ast.Attribute) and isinstance(e.value, ast.Name) and e.value.id in ("operator", "_operator"):
+            ops = {"xor": ast.BitXor(), "__xor__": ast.BitXor(), "rshift": ast.RShift(), "add": ast.Add(), "sub": ast.Sub()}
+            if e.attr in ops:
+                return ("binop", ops[e.attr])
+            raise AnalysisError(f"gf2: operator outside the XOR-linear fragment: {unparse(e)}")
+        if isinstance(e, ast.Lambda) and len(e.args.args) == 2 and isinstance(e.body, ast.BinOp) and \
+                isinstance(e.body.left, ast.Name) and isinstance(e.body.right, ast.Name) and \
+                [e.body.left.id, e.body.right.id] == [a.arg for a in e.args.args]:
+            return ("binop", e.body.op)
         if isinstance(e, ast.List):
             return [self.ev(x, env) for x in e.elts]
         if isinstance(e, ast.BinOp):
@@ -196,6 +205,39 @@ class GF2Eval:
                     args.extend(v)
                 else:
                     args.append(self.ev(a, env))
+            kw = {k.arg: self.ev(k.value, env) for k in e.keywords}
+            if fn in ("accumulate", "itertools.accumulate") and len(args) == 2 and isinstance(args[0], (list, range)):
+                f2 = args[1]
+                if not (isinstance(f2, tuple) and f2 and f2[0] == "binop"):
+                    raise AnalysisError(f"gf2: accumulate() with a function that is not an operator: {unparse(e)}")
+                out = []
+                items = list(args[0])
+                if "initial" in kw:
+                    acc = kw["initial"]
+                    out.append(acc)
+                else:
+                    if not items:
+                        return []
+                    acc = items.pop(0)
+                    out.append(acc)
+                for x in items:
+                    acc = self.binop(f2[1], acc, x, e)
+                    out.append(acc)
+                return out
+            if fn in ("reduce", "functools.reduce") and len(args) in (2, 3) and isinstance(args[1], (list, range)):
+                f2 = args[0]
+                if not (isinstance(f2, tuple) and f2 and f2[0] == "binop"):
+                    raise AnalysisError(f"gf2: reduce() with a function that is not an operator: {unparse(e)}")
+                items = list(args[1])
+                if len(args) == 3:
+                    acc = args[2]
+                else:
+                    if not items:
+                        raise AnalysisError("gf2: reduce() of an empty sequence")
+                    acc = items.pop(0)
+                for x in items:
+                    acc = self.binop(f2[1], acc, x, e)
+                return acc
             if e.keywords:
                 raise AnalysisError(f"gf2: keyword arguments in {unparse(e)}")
             if fn == "len" and len(args) == 1 and isinstance(args[0], (Bits, list, range)):
@@ -204,6 +246,8 @@ class GF2Eval:
                 return range(*args)
             if fn == "reversed" and isinstance(args[0], (list, range)):
                 return list(reversed(args[0]))
+            if fn == "reversed" and isinstance(args[0], Bits):
+                return [Bits([b]) for b in reversed(args[0].bits)]
             if fn == "list" and isinstance(args[0], (list, range)):
                 return list(args[0])
             if fn == "Const" and all(isinstance(a, int) for a in args) and 1 <= len(args) <= 2:
